@@ -377,6 +377,31 @@ func resolveLineGroups(p *load.Prog, parse *ssa.Function, sub *ssa.Call) (lineGr
 	var ok bool
 	for _, tv := range tagVals {
 		tc, isCall := tv.(*ssa.Call)
+		// a one-parameter helper whose every return is TagFromString of its unmodified parameter stands for it
+		if isCall && tc.Call.StaticCallee() != tagFrom {
+			if h := tc.Call.StaticCallee(); h != nil && p.IsRepoFunc(h) && len(h.Blocks) > 0 && len(h.Params) == 1 && len(tc.Call.Args) == 1 {
+				all, n := true, 0
+				for _, hb := range h.Blocks {
+					if hr, isRet := hb.Instrs[len(hb.Instrs)-1].(*ssa.Return); isRet && len(hr.Results) == 1 {
+						n++
+						ic, isC := hr.Results[0].(*ssa.Call)
+						if !isC || ic.Call.StaticCallee() != tagFrom || ic.Call.Args[0] != ssa.Value(h.Params[0]) {
+							all = false
+						}
+					}
+				}
+				if all && n > 0 {
+					b0, k0, ok0 := su.ElemOf(tc.Call.Args[0])
+					if ok0 && b0 == ssa.Value(sub) {
+						if g.tag != 0 && g.tag != int(k0) {
+							return g, "the tag is taken from two different groups"
+						}
+						g.tag = int(k0)
+						continue
+					}
+				}
+			}
+		}
 		if !isCall || tc.Call.StaticCallee() != tagFrom {
 			return g, "tag argument of newNode is not TagFromString(group)"
 		}
@@ -562,6 +587,22 @@ func resolveLineGroups(p *load.Prog, parse *ssa.Function, sub *ssa.Call) (lineGr
 			if ok && base == ssa.Value(sub) {
 				g.level = int(k)
 			}
+		}
+	}
+	// a one-parameter helper that converts its parameter with strconv.Atoi (parseLevel(s))
+	for _, c := range su.Calls(parse) {
+		h := c.Common().StaticCallee()
+		if g.level != 0 || h == nil || !p.IsRepoFunc(h) || len(h.Blocks) == 0 || len(h.Params) != 1 || len(c.Common().Args) != 1 {
+			continue
+		}
+		conv := false
+		for _, hc := range su.Calls(h) {
+			if su.CalleeIs(hc.Common(), "strconv", "Atoi") && hc.Common().Args[0] == ssa.Value(h.Params[0]) {
+				conv = true
+			}
+		}
+		if base, k, ok := su.ElemOf(c.Common().Args[0]); conv && ok && base == ssa.Value(sub) {
+			g.level = int(k)
 		}
 	}
 	for _, c := range su.Calls(parse) {
